@@ -244,3 +244,11 @@ def position_euclidean(p, q):
     d2 = (p.y - q.y) * (p.y - q.y) + (p.x - q.x) * (p.x - q.x)
     # floats natively (T7): the square is compared up to rounding
     ensures('l2', lambda: result() >= 0 and abs(result() * result() - d2) * 1000000000 <= 1 + d2)
+
+
+@lemma(args={'a': 'Action'}, props=['C08', 'C18'])
+def action_kinds(a):
+    from gym_gridverse.action import Action
+    check('move-actions', lambda: a.is_move() == (a is Action.MOVE_FORWARD or a is Action.MOVE_BACKWARD
+                                                  or a is Action.MOVE_LEFT or a is Action.MOVE_RIGHT))
+    check('turn-actions', lambda: a.is_turn() == (a is Action.TURN_LEFT or a is Action.TURN_RIGHT))
